@@ -22,6 +22,8 @@ impl ContinuityStore {
     //@@ end
 
     //@@ fn crates/ripd/src/continuities.rs ContinuityStore::append_message rules=R9
+    //@@ rewrite self.stream_cache.append_best_effort(&event); => self.stream_cache.append_best_effort_locked(&next_seq, &event);
+    //@@ rewrite? drop(next_seq); => vrelease(&mut next_seq);
     //@@ sig
         ensures
             // Ok only if a frame (continuity_id, s) reached the truth log and the counter then moved to s+1
@@ -29,6 +31,8 @@ impl ContinuityStore {
     //@@ end
 
     //@@ fn crates/ripd/src/continuities.rs ContinuityStore::append_run_spawned rules=R9
+    //@@ rewrite self.stream_cache.append_best_effort(&event); => self.stream_cache.append_best_effort_locked(&next_seq, &event);
+    //@@ rewrite? drop(next_seq); => vrelease(&mut next_seq);
     //@@ sig
         ensures
             // Ok only if a frame (continuity_id, s) reached the truth log and the counter then moved to s+1
@@ -36,6 +40,8 @@ impl ContinuityStore {
     //@@ end
 
     //@@ fn crates/ripd/src/continuities.rs ContinuityStore::append_context_selection_decided rules=R9
+    //@@ rewrite self.stream_cache.append_best_effort(&event); => self.stream_cache.append_best_effort_locked(&next_seq, &event);
+    //@@ rewrite? drop(next_seq); => vrelease(&mut next_seq);
     //@@ sig
         ensures
             // Ok only if a frame (continuity_id, s) reached the truth log and the counter then moved to s+1
@@ -43,6 +49,8 @@ impl ContinuityStore {
     //@@ end
 
     //@@ fn crates/ripd/src/continuities.rs ContinuityStore::append_context_compiled rules=R9
+    //@@ rewrite self.stream_cache.append_best_effort(&event); => self.stream_cache.append_best_effort_locked(&next_seq, &event);
+    //@@ rewrite? drop(next_seq); => vrelease(&mut next_seq);
     //@@ sig
         ensures
             // Ok only if a frame (continuity_id, s) reached the truth log and the counter then moved to s+1
@@ -50,6 +58,8 @@ impl ContinuityStore {
     //@@ end
 
     //@@ fn crates/ripd/src/continuities.rs ContinuityStore::append_provider_cursor_updated rules=R9
+    //@@ rewrite self.stream_cache.append_best_effort(&event); => self.stream_cache.append_best_effort_locked(&next_seq, &event);
+    //@@ rewrite? drop(next_seq); => vrelease(&mut next_seq);
     //@@ sig
         ensures
             // Ok only if a frame (continuity_id, s) reached the truth log and the counter then moved to s+1
@@ -57,6 +67,8 @@ impl ContinuityStore {
     //@@ end
 
     //@@ fn crates/ripd/src/continuities.rs ContinuityStore::append_compaction_checkpoint_created rules=R9
+    //@@ rewrite self.stream_cache.append_best_effort(&event); => self.stream_cache.append_best_effort_locked(&next_seq, &event);
+    //@@ rewrite? drop(next_seq); => vrelease(&mut next_seq);
     //@@ sig
         ensures
             // Ok only if a frame (continuity_id, s) reached the truth log and the counter then moved to s+1
@@ -64,6 +76,8 @@ impl ContinuityStore {
     //@@ end
 
     //@@ fn crates/ripd/src/continuities.rs ContinuityStore::append_compaction_auto_schedule_decided rules=R9
+    //@@ rewrite self.stream_cache.append_best_effort(&event); => self.stream_cache.append_best_effort_locked(&next_seq, &event);
+    //@@ rewrite? drop(next_seq); => vrelease(&mut next_seq);
     //@@ sig
         ensures
             // Ok only if a frame (continuity_id, s) reached the truth log and the counter then moved to s+1
@@ -71,6 +85,8 @@ impl ContinuityStore {
     //@@ end
 
     //@@ fn crates/ripd/src/continuities.rs ContinuityStore::append_job_spawned rules=R9
+    //@@ rewrite self.stream_cache.append_best_effort(&event); => self.stream_cache.append_best_effort_locked(&next_seq, &event);
+    //@@ rewrite? drop(next_seq); => vrelease(&mut next_seq);
     //@@ sig
         ensures
             // Ok only if a frame (continuity_id, s) reached the truth log and the counter then moved to s+1
@@ -78,6 +94,8 @@ impl ContinuityStore {
     //@@ end
 
     //@@ fn crates/ripd/src/continuities.rs ContinuityStore::append_job_ended rules=R9
+    //@@ rewrite self.stream_cache.append_best_effort(&event); => self.stream_cache.append_best_effort_locked(&next_seq, &event);
+    //@@ rewrite? drop(next_seq); => vrelease(&mut next_seq);
     //@@ sig
         ensures
             // Ok only if a frame (continuity_id, s) reached the truth log and the counter then moved to s+1
@@ -85,6 +103,8 @@ impl ContinuityStore {
     //@@ end
 
     //@@ fn crates/ripd/src/continuities.rs ContinuityStore::append_run_ended rules=R9
+    //@@ rewrite self.stream_cache.append_best_effort(&event); => self.stream_cache.append_best_effort_locked(&next_seq, &event);
+    //@@ rewrite? drop(next_seq); => vrelease(&mut next_seq);
     //@@ sig
         ensures
             // Ok only if a frame (continuity_id, s) reached the truth log and the counter then moved to s+1
@@ -92,6 +112,8 @@ impl ContinuityStore {
     //@@ end
 
     //@@ fn crates/ripd/src/continuities.rs ContinuityStore::append_tool_side_effects rules=R9
+    //@@ rewrite self.stream_cache.append_best_effort(&event); => self.stream_cache.append_best_effort_locked(&next_seq, &event);
+    //@@ rewrite? drop(next_seq); => vrelease(&mut next_seq);
     //@@ sig
         ensures
             ret is Ok ==> exists|s: u64| #![auto] appended(run.continuity_id@, s) && advanced(run.continuity_id@, (s + 1) as u64),   // [append_tool_side_effects.appended_then_advanced]
@@ -108,10 +130,12 @@ impl ContinuityStore {
     // creation under the caller's guard: frame 0 with the reserved seq, counter set to 1 through the SAME guard, and only for a
     // thread id the guard does not know yet
     //@@ fn crates/ripd/src/continuities.rs ContinuityStore::create_continuity_locked rules=R9
+    //@@ rewrite self.stream_cache.append_best_effort(&created); => self.stream_cache.append_best_effort_locked(next_seq, &created);
     //@@ rewrite &mut HashMap<String, u64> => &mut SeqGuard
     //@@ sig
-        requires continuity_id matches Some(id) ==> reserved(id@, 0),
+        requires continuity_id matches Some(id) ==> reserved(id@, 0), old(next_seq).held(),
         ensures
+            final(next_seq).held(),
             ret matches Ok(id) ==> appended(id@, 0) && reserved(id@, 1),                                                  // [create_continuity.creation_frame_at_seq0]
             ret matches Ok(id) ==> (continuity_id matches Some(given) ==> id@ == given@),                                    // [create_continuity.id_frame]
             ret matches Ok(id) ==> !old(next_seq)@.contains_key(id@) && final(next_seq)@ == old(next_seq)@.insert(id@, 1),   // [create_continuity.counter_set_to_one_under_the_same_guard]
